@@ -131,6 +131,12 @@ def run_case(case, ctx):
             cg.tx.sequential_unroll(c, 1, dpin, qpin, ignore_pins=["clk"] if dpin == "d" else ["CK"], remove_unloaded=True)
         except Exception:
             pass
+    if case["n"] % 2 == 0:
+        try:   # the same object and arguments except remove_unloaded: nothing of that call may be reused
+            cg.tx.sequential_unroll(c, case["n"], dpin, qpin, ignore_pins=case.get("ign", "clk"), add_flop_outputs=case["afo"],
+                                    initial_values=arg, remove_unloaded=not case["ru"])
+        except Exception:
+            pass
     try:
         uc, iomap = cg.tx.sequential_unroll(c, case["n"], dpin, qpin, ignore_pins=case.get("ign", "clk"), add_flop_outputs=case["afo"],
                                             initial_values=arg, remove_unloaded=case["ru"])
